@@ -35,7 +35,7 @@ structure SubMon where
   expires : Int
   gotInitial : Bool
   credit : Nat                -- triggers since the start of the operation not yet answered by a NOTIFY
-  lastVals : List (Option Int)  -- values carried by the last event sent to it
+  lastVals : List (Option Val)  -- values carried by the last event sent to it
 deriving Repr, DecidableEq
 
 structure Mon where
@@ -44,14 +44,14 @@ structure Mon where
   target : Int                 -- end of the current operation in virtual time
   evented : List Bool
   rate : List Nat
-  cur : List (Option Int)      -- current value of every variable
+  cur : List (Option Val)      -- current value of every variable
   lastChange : List Int
   lastTrig : List (Option Int)
   subs : List SubMon           -- indexed by SID number
   awaiting : Option Op         -- request whose response has not been seen yet
 deriving Repr
 
-def Mon.init (evented : List Bool) (rate : List Nat) (defaults : List (Option Int)) : Mon :=
+def Mon.init (evented : List Bool) (rate : List Nat) (defaults : List (Option Val)) : Mon :=
   { ok := true, now := 0, target := 0, evented := evented, rate := rate, cur := defaults,
     lastChange := defaults.map (fun _ => 0), lastTrig := defaults.map (fun _ => none),
     subs := [], awaiting := none }
@@ -86,7 +86,7 @@ def Mon.close (j : Mon) : Mon :=
   { j1 with ok := j1.ok && quiescentOk j1, subs := j1.subs.map (fun s => { s with credit := 0 }) }
 
 /-- an assignment: the current value and the time of the last change -/
-def Mon.assign (j : Mon) (x : Nat) (v : Int) : Mon :=
+def Mon.assign (j : Mon) (x : Nat) (v : Val) : Mon :=
   if j.cur[x]? = some (some v) then j
   else if x < j.cur.length then
     { j with cur := j.cur.set x (some v), lastChange := j.lastChange.set x j.now }
@@ -99,6 +99,7 @@ def Mon.beginOp (j : Mon) : Op → Mon
   | .subscribe sid cb to => { j with awaiting := some (.subscribe sid cb to) }
   | .unsubscribe sid => { j with awaiting := some (.unsubscribe sid) }
   | .done _ => j
+  | .fail _ => j
   | .setKey sid k => { j with subs := j.subs.modify sid (fun s => { s with nextSeq := k }) }
 
 def markDead (j : Mon) (k : Nat) : Mon :=
@@ -131,9 +132,9 @@ def Mon.onResp (j : Mon) (o : Op) (st : Nat) (sid : Option Nat) (g : Option Int)
          else if decide (j.now < s.expires) && timeoutOk to then fail j   -- J7
          else if timeoutOk to then markDead j k   -- refused after expiry: the subscription is gone
          else j
-       else check j (st != 200)                  -- J8
-     | none => check j (st != 200))              -- J8
-  | .subscribe .unknown _ _ => check j (st != 200)   -- J8
+       else check j (refused st)                  -- J8
+     | none => check j (refused st))              -- J8
+  | .subscribe .unknown _ _ => check j (refused st)   -- J8
   | .unsubscribe (.known k) =>
     (match j.subs[k]? with
      | some s =>
@@ -141,9 +142,9 @@ def Mon.onResp (j : Mon) (o : Op) (st : Nat) (sid : Option Nat) (g : Option Int)
          if st = 200 then markDead j k
          else if decide (j.now < s.expires) then fail j   -- J7
          else markDead j k
-       else check j (st != 200)                  -- J8
-     | none => check j (st != 200))
-  | .unsubscribe _ => check j (st != 200)        -- J8
+       else check j (refused st)                  -- J8
+     | none => check j (refused st))
+  | .unsubscribe _ => check j (refused st)        -- J8
   | _ => fail j
 
 def timeOk (j : Mon) (t : Int) : Bool := decide (j.now ≤ t) && decide (t ≤ j.target)
@@ -159,7 +160,7 @@ def Mon.onObs (j : Mon) : Obs → Mon
      | some s =>
        let c := s.alive && seq == s.nextSeq
                 && (s.url.isNone || s.url == some url)
-                && body == bodyOf j.evented j.cur
+                && bodyOk j.evented j.cur body
                 && (!s.gotInitial || (decide (t < s.expires) && decide (0 < s.credit)))
        { j with ok := j.ok && timeOk j t && c, now := t,
                 subs := j.subs.set sid { s with nextSeq := specNextKey seq, gotInitial := true,
@@ -175,13 +176,14 @@ def Mon.onObs (j : Mon) : Obs → Mon
              lastTrig := j.lastTrig.set x (some t),
              subs := j.subs.map (fun s => { s with credit := s.credit + 1 }) }
   | .ret _ => j
+  | .exc _ => j
 
 def Mon.step (j : Mon) : Item → Mon
   | .op o => (j.close).beginOp o
   | .obs o => j.onObs o
 
 /-- the judge: the whole trace is accepted -/
-def ok (evented : List Bool) (rate : List Nat) (defaults : List (Option Int)) (trace : List Item) : Bool :=
+def ok (evented : List Bool) (rate : List Nat) (defaults : List (Option Val)) (trace : List Item) : Bool :=
   ((trace.foldl Mon.step (Mon.init evented rate defaults)).close).ok
 
 end Upnp.C15
